@@ -79,6 +79,8 @@ CTX1 = [
     {"a": [1, 2]}, {"a": [1, 2], "b": [10, 20]}, {"b": [10, 20], "a": [1, 2]}, {"a": [1, 2, 3], "b": [10, 20]},
     {"a": []}, {"a": [], "b": [10]}, {"c": [7]}, {"c": [5, 6, 7], "a": [1, 2]}, {},
     {"a": [0, None], "b": [False, ""]},   # falsy / null values are values like any other
+    {"a": [[1, 2], [3]], "b": [{"k": 1}, None]},            # values that are themselves lists / mappings
+    {"a": [1, 1.0, True], "c": ["1", "x=y", "käse ✓"]},      # == but different scalars; strings that look like numbers / syntax
 ]
 SRC1_QUICK = [
     None,
@@ -170,7 +172,7 @@ def judge(rs: dict, cwd: str, tabs) -> Optional[Tuple[str, str]]:
         return ("valid-spec-rejected", f"documentation accepts ({exp[1]} runs); implementation: {got}")
     want = list(exp[2]())
     runs = got[1]
-    if runs != want:
+    if runs != want or json.dumps(runs, sort_keys=True, default=repr) != json.dumps(want, sort_keys=True, default=repr):  # type-strict: 1, 1.0 and True are different values
         return ("wrong-run-list", f"runs {str(runs)[:300]} != documented {str(want)[:300]}")
     union = set()
     for b in rs.get("blocks", []):
